@@ -66,3 +66,44 @@ Proof.
   intros ad ad'. subst ad ad'. rewrite (diffs_to_swap t1 t2). cbn [fst snd].
   rewrite !map_app, !map_map. unfold lc_mirror, lc, mk_diff, add_diff. cbn [d_loc d_code mirror_code]. apply Permutation_app_comm.
 Qed.
+
+(* ---------- the whole metadata section of a document ---------- *)
+Lemma meta_prop_mirror (x y : str) (c : code) : mirror_code c = c ->
+  map lc_mirror (analyse_meta_prop x y c) = map lc (analyse_meta_prop y x c).
+Proof.
+  intros M. unfold analyse_meta_prop. rewrite (str_eqb_sym y x). destruct (str_eqb x y); [reflexivity|].
+  cbn [map]. unfold lc_mirror, lc, mk_diff, add_diff. cbn [d_loc d_code]. rewrite M. reflexivity.
+Qed.
+
+Definition lists_present (a : swagger) : Prop :=
+  sw_consumes a <> None /\ sw_produces a <> None /\ sw_schemes a <> None.
+
+Definition lst_diffs (child : str) (x y : option (list str)) (ca cd : code) : list sdiff :=
+  map (fun v => mk_diff (spec_loc child) ca v) (fst (diffs_to x y)) ++ map (fun v => mk_diff (spec_loc child) cd v) (snd (diffs_to x y)).
+
+Lemma analyse_metadata_parts a b : analyse_metadata a b =
+  lst_diffs (s "consumes") (sw_consumes a) (sw_consumes b) AddedConsumesFormat DeletedConsumesFormat ++
+  lst_diffs (s "produces") (sw_produces a) (sw_produces b) AddedProducesFormat DeletedProducesFormat ++
+  lst_diffs (s "schemes") (sw_schemes a) (sw_schemes b) AddedSchemes DeletedSchemes ++
+  analyse_meta_prop (sw_info_desc a) (sw_info_desc b) ChangedDescripton ++
+  analyse_meta_prop (sw_host a) (sw_host b) ChangedHostURL ++
+  analyse_meta_prop (sw_basepath a) (sw_basepath b) ChangedBasePath.
+Proof. reflexivity. Qed.
+
+Lemma lst_diffs_mirror child x y ca cd : mirror_code ca = cd -> mirror_code cd = ca ->
+  Permutation (map lc_mirror (lst_diffs child (Some x) (Some y) ca cd)) (map lc (lst_diffs child (Some y) (Some x) ca cd)).
+Proof. intros M1 M2. unfold lst_diffs. apply (list_pair_mirror x y (spec_loc child) ca cd M1 M2). Qed.
+
+Theorem metadata_mirror a b : lists_present a -> lists_present b ->
+  Permutation (map lc_mirror (analyse_metadata a b)) (map lc (analyse_metadata b a)).
+Proof.
+  intros [C1 [P1 S1]] [C2 [P2 S2]]. rewrite !analyse_metadata_parts.
+  destruct (sw_consumes a) as [ca|]; [|contradiction]. destruct (sw_consumes b) as [cb|]; [|contradiction].
+  destruct (sw_produces a) as [pa|]; [|contradiction]. destruct (sw_produces b) as [pb|]; [|contradiction].
+  destruct (sw_schemes a) as [sa|]; [|contradiction]. destruct (sw_schemes b) as [sb|]; [|contradiction].
+  rewrite !map_app.
+  apply Permutation_app; [apply lst_diffs_mirror; reflexivity|].
+  apply Permutation_app; [apply lst_diffs_mirror; reflexivity|].
+  apply Permutation_app; [apply lst_diffs_mirror; reflexivity|].
+  rewrite !(meta_prop_mirror _ _ _ eq_refl). apply Permutation_refl.
+Qed.
